@@ -211,32 +211,68 @@ def correspondence(ctx, violations, known_hits):
     def limited():
         signal.signal(signal.SIGXFSZ, signal.SIG_IGN)
         resource.setrlimit(resource.RLIMIT_FSIZE, (1024, 1024))
-    for dk in ("absent", "existing", "existing-longer"):
+    longname = "n" * 245 + ".lc3"          # the destination's own name is legal (<= 255 bytes); a name derived from it by adding to it is not
+    for dk in ("absent", "existing", "existing-longer", "link-to-existing", "long-name-absent", "long-name-existing"):
         sub = os.path.join(d, "fsize-" + dk); os.makedirs(sub, exist_ok=True)
         open(os.path.join(sub, "p.asm"), "w").write(big)
-        dest = os.path.join(sub, "out.lc3")
+        name = longname if dk.startswith("long-name") else "out.lc3"
+        dest = os.path.join(sub, name)
+        real = dest
         before = None
-        if dk != "absent":
-            before = OLD if dk == "existing" else OLD * 40
+        if dk == "link-to-existing":
+            # the destination is a symbolic link to a regular file: the file it names is what must stay as it was (and the link a link)
+            real = os.path.join(sub, "real.bin")
+            before = OLD
+            open(real, "wb").write(before)
+            os.symlink("real.bin", dest)
+        elif not dk.endswith("absent"):
+            before = OLD if dk != "existing-longer" else OLD * 40
             open(dest, "wb").write(before)
-        p = subprocess.run([exe, "compile", "p.asm", "out.lc3"], cwd=sub, stdout=subprocess.DEVNULL, stderr=subprocess.DEVNULL, stdin=subprocess.DEVNULL,
+        p = subprocess.run([exe, "compile", "p.asm", name], cwd=sub, stdout=subprocess.DEVNULL, stderr=subprocess.DEVNULL, stdin=subprocess.DEVNULL,
                            env=dict(os.environ, NO_COLOR="1", RUST_BACKTRACE="0"), preexec_fn=limited, timeout=20)
-        after = open(dest, "rb").read() if os.path.exists(dest) else None
+        after = open(real, "rb").read() if os.path.exists(real) else None
         left = sorted(os.listdir(sub))
         ev += 1
         sigs.add(("fsize-limit", dk, p.returncode == 0))
-        good = p.returncode != 0 and after == before and left == (["p.asm"] if dk == "absent" else ["out.lc3", "p.asm"])
+        want_left = sorted(["p.asm"] + ([] if dk.endswith("absent") else [name]) + (["real.bin"] if dk == "link-to-existing" else []))
+        good = p.returncode != 0 and after == before and left == want_left and (dk != "link-to-existing" or os.path.islink(dest))
         if not good:
             nv += 1
             violations.append({"kind": "not-all-or-nothing", "class": "ok (2,004-byte image)", "destination": dk, "fault": "file-size limit of 1,024 bytes: the destination can be created but not completely written",
                                "source": big, "exit": p.returncode, "destination_before": before.hex()[:80] if before else None,
-                               "destination_after": (after.hex()[:80] + "... (%d bytes)" % len(after)) if after is not None else None, "directory_after": left})
+                               "destination_after": (after.hex()[:80] + "... (%d bytes)" % len(after)) if after is not None else None,
+                               "directory_after": [x if len(x) < 60 else x[:20] + "... (%d characters)" % len(x) for x in left]})
+    # and without any fault: a link and a long name are destinations like any other (the complete image, status 0, the link still a link)
+    for dk in ("link-to-existing", "long-name-absent", "long-name-existing", "dangling-link"):
+        sub = os.path.join(d, "nofault-" + dk); os.makedirs(sub, exist_ok=True)
+        open(os.path.join(sub, "p.asm"), "w").write("add r0 r0 #1\nhalt\n")
+        name = longname if dk.startswith("long-name") else "out.lc3"
+        dest = os.path.join(sub, name)
+        if dk == "link-to-existing":
+            open(os.path.join(sub, "real.bin"), "wb").write(OLD); os.symlink("real.bin", dest)
+        elif dk == "dangling-link":
+            os.symlink("real.bin", dest)
+        elif dk == "long-name-existing":
+            open(dest, "wb").write(OLD * 3)
+        p = subprocess.run([exe, "compile", "p.asm", name], cwd=sub, stdout=subprocess.DEVNULL, stderr=subprocess.PIPE, stdin=subprocess.DEVNULL,
+                           env=dict(os.environ, NO_COLOR="1", RUST_BACKTRACE="0"), timeout=20)
+        after = open(dest, "rb").read() if os.path.exists(dest) else None
+        left = sorted(os.listdir(sub))
+        ev += 1
+        sigs.add(("no-fault", dk, p.returncode == 0))
+        want_left = sorted(["p.asm", name] + (["real.bin"] if "link" in dk else []))
+        good = p.returncode == 0 and after == bytes.fromhex("300010 21f025".replace(" ", "")) and left == want_left and ("link" not in dk or os.path.islink(dest))
+        if not good:
+            nv += 1
+            violations.append({"kind": "complete-file-expected", "destination": dk, "source": "add r0 r0 #1\nhalt\n", "exit": p.returncode,
+                               "stderr": p.stderr.decode("utf-8", "replace")[-300:], "destination_after": after.hex() if after is not None else None,
+                               "directory_after": [x if len(x) < 60 else x[:20] + "... (%d characters)" % len(x) for x in left]})
     ctx.cleanup()
     return {
         "evaluations": ev, "distinct_nontrivial": len(sigs),
         "rule": "fault enumeration at the CLI: an out-of-range label reference injected at EVERY statement position 0..n of programs "
                 "with n up to 40 (several PC-relative instructions), plus parse/lex/label errors and valid programs, x destination "
-                "absent / pre-existing with unrelated contents, empty, a proper prefix of the new object file, the new object file followed by stale words / a link to /dev/full / missing directory / a directory in place of the file / a dangling link / a file name that is not valid UTF-8 (absent, pre-existing); sources without any statement (empty, comments, `.orig` alone, `.end` first); the reader of compile's standard output going away after the first progress line; a working directory removed under the process (absolute paths); a file-size limit below the image's size (the destination can be created but not completely written); the scratch directory must hold nothing new; "
+                "absent / pre-existing with unrelated contents, empty, a proper prefix of the new object file, the new object file followed by stale words / a link to /dev/full / missing directory / a directory in place of the file / a dangling link / a file name that is not valid UTF-8 (absent, pre-existing); sources without any statement (empty, comments, `.orig` alone, `.end` first); the reader of compile's standard output going away after the first progress line; a working directory removed under the process (absolute paths); a file-size limit below the image's size (the destination can be created but not completely written) with the destination absent, existing, a symbolic link to a regular file, a 249-byte file name; links and long names without a fault; the scratch directory must hold nothing new; "
                 "observed: exit status and the bytes at the destination before and after; distinct = distinct (class, destination, exit==0)",
         "exhaustive": True, "exhaustive_over": "failing statement position 0..n for each listed n",
         "histogram": hist, "samples": samples, "mismatches": nv,
